@@ -76,8 +76,8 @@ struct V<MoveOnly> {
     static constexpr const char *name = "moveonly";
 };
 
-enum Start { DETACH = 0, DETACH_AWAITED, START, START_PROMISE, START_CLAIMED, COAWAIT, JOIN, FUTURE_CTOR, FN_RETURNS_FUTURE, FUTURE_CORO, CALL_OP, MOVED_STARTED, NEVER_STARTED, START_PROMISE_SELF, JOIN_IN_CORO, START_IN_CORO, NSTART };
-static const char *start_names[] = {"detach", "detach_awaited", "start", "start(promise)", "start(claimed)", "co_await", "join", "future(async)", "fn->future", "future-coroutine", "operator()", "moved-then-started", "never-started", "start(promise)-future-owned-by-argument", "join-inside-coroutine", "start-inside-coroutine"};
+enum Start { DETACH = 0, DETACH_AWAITED, START, START_PROMISE, START_CLAIMED, COAWAIT, JOIN, FUTURE_CTOR, FN_RETURNS_FUTURE, FUTURE_CORO, CALL_OP, MOVED_STARTED, NEVER_STARTED, START_PROMISE_SELF, JOIN_IN_CORO, START_IN_CORO, DISCARD, NSTART };
+static const char *start_names[] = {"detach", "detach_awaited", "start", "start(promise)", "start(claimed)", "co_await", "join", "future(async)", "fn->future", "future-coroutine", "operator()", "moved-then-started", "never-started", "start(promise)-future-owned-by-argument", "join-inside-coroutine", "start-inside-coroutine", "discard(fn->future)"};
 enum Compl { SYNC_VALUE = 0, SYNC_THROW, SUSP_VALUE, SUSP_THROW, NCOMPL };
 static const char *compl_names[] = {"sync-value", "sync-throw", "suspend-value", "suspend-throw"};
 
@@ -352,6 +352,10 @@ static void run_cell(seqx::Runner &R, int start, int comp, int depth) {
             case START_IN_CORO:
                 outer_join_inside<T>(c, depth, got, start == START_IN_CORO).detach();
                 have_party = true;
+                break;
+            case DISCARD:
+                // cocls::discard: the bound party is a heap awaiter that deletes itself when the coroutine completes
+                cocls::discard([&] { return cocls::future<T>(level<T>(c, depth, Guard())); });
                 break;
             case FUTURE_CTOR: f.reset(new cocls::future<T>(level<T>(c, depth, Guard()))); break;
             case FN_RETURNS_FUTURE: f.reset(new cocls::future<T>(fn_returning_future<T>(c, depth))); break;
